@@ -43,7 +43,9 @@ def suite(wt):
         m = re.match(r"test (.+?) \.\.\. (\w+)", line)
         if m:
             key = re.sub(r"/tmp/wt/confirm-\d+", "<wt>", cur + " :: " + m.group(1))
-            res[re.sub(r"-[0-9a-f]{16}/", "-<hash>/", key)] = m.group(2)
+            key = re.sub(r" \(line \d+\)", " (line N)", key)  # a doctest's name carries its line number: a patch above it shifts the name, not the test
+            key = re.sub(r"-[0-9a-f]{16}/", "-<hash>/", key)
+            res[key] = "failed" if res.get(key) == "failed" else m.group(2) if m.group(2) != "ok" or key not in res else res[key]
     return res
 
 
